@@ -133,6 +133,45 @@ def minimise(prop, plan, key, budget, n_workers, timeout):
   return cur, spent[0]
 
 
+def history_prefix(prop, plans, prefix_idx, plan, key, n_workers, timeout,
+                   budget=24):
+  """The violation of `plan` does not reproduce alone. Find a (small) list of
+  the plans that ran before it in the same interpreter after which it does.
+  Returns the list of prefix plans, or None if even the full prefix does not
+  reproduce it."""
+  job = lambda n, q_: {'id': n, 'prop': prop, 'plan': q_}
+
+  def fails(prefixes):
+    seqs = [[job(n, q_) for n, q_ in enumerate(list(pf) + [plan])]
+            for pf in prefixes]
+    res = pool.run_sequences(seqs, n_workers=n_workers, timeout=timeout)
+    return [bool(r and r[-1] and key in _keys_of(prop, r[-1])) for r in res]
+
+  cur = [plans[i] for i in prefix_idx]
+  if not cur or not fails([cur])[0]:
+    return None
+  spent = 1
+  # greedy delta debugging on the prefix (order preserved)
+  n = 2
+  while len(cur) >= 2 and spent < budget:
+    size = max(1, len(cur) // n)
+    chunks = [cur[i:i + size] for i in range(0, len(cur), size)]
+    cands = [[q_ for cj, ch in enumerate(chunks) if cj != ci for q_ in ch]
+             for ci in range(len(chunks))]
+    cands = [c for c in cands if c]
+    got = fails(cands)
+    spent += len(cands)
+    hit = [c for c, g in zip(cands, got) if g]
+    if hit:
+      cur = min(hit, key=len)
+      n = max(n - 1, 2)
+    elif size == 1:
+      break
+    else:
+      n = min(n * 2, len(cur))
+  return cur
+
+
 def generic_simplifications(plan, defaults=None):
   """Candidate plans that are 'simpler' than plan."""
   ops = plan.get('ops', [])
@@ -233,28 +272,50 @@ def run_check(prop, tier, seed, n_workers=None):
     if n_rep >= int(os.environ.get("VERIF_MAX_REPORTS", "4")):
       break
     small, spent = plan, 0
-    if mini_budget and not harness:
+    # does the plan fail on its own in a fresh interpreter? If not, the
+    # violation depends on what the same interpreter executed before (state
+    # kept by the library at module level): the earlier plans of that worker
+    # become part of the schedule and of the replay file.
+    alone = pool.run_jobs([{'id': 0, 'prop': prop, 'plan': plan}], n_workers=1,
+                          timeout=timeout)[0]
+    prefix_plans = None
+    if key not in _keys_of(prop, alone) and rep.get('_prefix') and not harness:
+      prefix_plans = history_prefix(prop, plans, rep['_prefix'], plan, key,
+                                    n_workers, timeout)
+    if prefix_plans is None and mini_budget and not harness and \
+        key in _keys_of(prop, alone):
       try:
         small, spent = minimise(prop, plan, key, mini_budget, n_workers, timeout)
       except Exception as e:  # pylint: disable=broad-except
         print(f'minimiser failed: {e!r}', file=sys.stderr)
         small = plan
     # final confirmation run of the minimised plan in a fresh process
-    conf = pool.run_jobs([{'id': 0, 'prop': prop, 'plan': small}], n_workers=1,
-                         timeout=timeout)[0]
+    if prefix_plans is not None:
+      seq = [{'id': n, 'prop': prop, 'plan': q_} for n, q_ in
+             enumerate(prefix_plans + [plan])]
+      conf = pool.run_sequences([seq], n_workers=1, timeout=timeout)[0][-1] or rep
+    else:
+      conf = pool.run_jobs([{'id': 0, 'prop': prop, 'plan': small}],
+                           n_workers=1, timeout=timeout)[0]
     if key not in _keys_of(prop, conf):
       small, conf = plan, rep
     dig = conf['result']['digest'] if conf.get('ok') else None
-    name = f"{prop}-seed{seed}-{sha(canon(small))[:10]}.json"
+    name = f"{prop}-seed{seed}-{sha(canon(small) + key)[:10]}.json"
     path = os.path.join(OUT, 'replays', name)
+    doc = {'property': prop, 'seed': seed, 'violation_key': key,
+           'expected_digest': dig, 'detail': v,
+           'minimised_from_ops': len(plan.get('ops', [])),
+           'minimiser_candidates': spent, 'plan': small}
+    if prefix_plans is not None:
+      doc['prefix_plans'] = prefix_plans
     with open(path, 'w') as f:
-      json.dump({'property': prop, 'seed': seed, 'violation_key': key,
-                 'expected_digest': dig, 'detail': v,
-                 'minimised_from_ops': len(plan.get('ops', [])),
-                 'minimiser_candidates': spent, 'plan': small}, f, indent=1,
-                sort_keys=True)
+      json.dump(doc, f, indent=1, sort_keys=True)
     lines.append(f'VIOLATION property={prop} replay={path}')
     lines.append(f'  key={key}')
+    if prefix_plans is not None:
+      lines.append(f'  depends on process history: the replay runs '
+                   f'{len(prefix_plans)} earlier plan(s) of the same interpreter '
+                   f'first (from {len(rep["_prefix"])})')
     lines.append(f'  detail={canon(v)[:600]}')
     lines.append(f"  ops={len(small.get('ops', []))} (from "
                  f"{len(plan.get('ops', []))}), candidates tried={spent}, "
@@ -379,8 +440,16 @@ def replay(path, n_workers=1):
   with open(path) as f:
     d = json.load(f)
   prop = d['property']
-  rep = pool.run_jobs([{'id': 0, 'prop': prop, 'plan': d['plan']}],
-                      n_workers=1, timeout=900)[0]
+  if d.get('prefix_plans'):
+    # history-dependent violation: the earlier plans of the same interpreter
+    # are executed first, in order, in one fresh process
+    seq = [{'id': n, 'prop': prop, 'plan': q_} for n, q_ in
+           enumerate(list(d['prefix_plans']) + [d['plan']])]
+    rep = pool.run_sequences([seq], n_workers=1, timeout=900)[0][-1] or {
+        'id': 0, 'ok': False, 'kind': 'died'}
+  else:
+    rep = pool.run_jobs([{'id': 0, 'prop': prop, 'plan': d['plan']}],
+                        n_workers=1, timeout=900)[0]
   st, viols = outcome(prop, rep)
   keys = {v['key'] for v in viols}
   dig = rep['result']['digest'] if rep.get('ok') else None
